@@ -249,6 +249,11 @@ func (vm *VM) generalIndirect(r int8) reflect.Value {
 		// A general register holds the dynamic value of an interface value
 		// (the invalid reflect.Value for nil), not a value of interface kind.
 		return elem.Elem()
+	case reflect.Slice, reflect.Map, reflect.Chan, reflect.Pointer, reflect.UnsafePointer:
+		// Return a value that does not refer to the storage of the
+		// variable, so that it does not change when the variable is
+		// assigned.
+		return reflect.ValueOf(elem.Interface())
 	}
 	return elem
 }
